@@ -30,7 +30,9 @@ type c07Case struct {
 	Queue     bool     `json:"queue"`     // nats queue group
 	Proto     string   `json:"proto"`
 	Msgs      []c07Msg `json:"msgs"`
-	After     int      `json:"after"` // valid messages published after Unsubscribe returned (nats)
+	After     int      `json:"after"`      // valid messages published after Unsubscribe returned (nats)
+	Burst     int      `json:"burst"`      // additional valid messages published back to back (nats)
+	HoldFirst bool     `json:"hold_first"` // the first handler invocation blocks until everything was published
 }
 
 var c07Kinds = []string{"valid", "valid", "valid", "valid", "short", "empty", "badversion", "badheadersize", "wrongop", "truncated", "foreign-op", "foreign-prefix", "foreign-scope"}
@@ -51,6 +53,10 @@ func genC07(t *rapid.T) c07Case {
 		c.Msgs = append(c.Msgs, m)
 	}
 	c.After = rapid.IntRange(0, 3).Draw(t, "after")
+	if c.Transport == "nats" && rapid.IntRange(0, 3).Draw(t, "burst?") == 0 {
+		c.Burst = rapid.SampledFrom([]int{10, 70, 130, 300}).Draw(t, "burst")
+		c.HoldFirst = rapid.Bool().Draw(t, "hold")
+	}
 	return c
 }
 
@@ -78,6 +84,13 @@ func classifyC07(c c07Case) ev.Class {
 			bad = true
 			labels = append(labels, "malformed="+m.Kind)
 		}
+	}
+	if c.Burst > 64 {
+		labels = append(labels, "burst-beyond-work-queue")
+		nt = true
+	}
+	if c.HoldFirst {
+		labels = append(labels, "slow-first-handler")
 	}
 	if c.After > 0 && c.Transport == "nats" {
 		labels = append(labels, "post-unsubscribe-publish")
@@ -120,10 +133,24 @@ func execC07Inner(c c07Case) *ev.Failure {
 	syncC := make(chan struct{}, 256)
 	unsubscribed := false
 	var lateStart []string
+	hold := make(chan struct{})
+	first := true
 	cb := subscriberCallback("Evt", pf, func(ctx frugal.FContext, v string) error {
 		if v == "__sync__" {
 			syncC <- struct{}{}
 			return nil
+		}
+		if c.HoldFirst {
+			mu.Lock()
+			wasFirst := first
+			first = false
+			mu.Unlock()
+			if wasFirst {
+				select {
+				case <-hold:
+				case <-time.After(10 * time.Second):
+				}
+			}
 		}
 		h := ctx.RequestHeaders()
 		var user []KV
@@ -244,7 +271,19 @@ func execC07Inner(c c07Case) *ev.Failure {
 			return ev.Failf("harness:publish", "message %d (%s): %v", i, m.Kind, err)
 		}
 	}
+	for i := 0; i < c.Burst; i++ {
+		cid := fmt.Sprintf("cid-b%d", i)
+		v := fmt.Sprintf("burst-%04d", i)
+		if err := pubValid(topic, "Evt", v, nil, cid); err != nil {
+			return ev.Failf("harness:publish", "burst message %d: %v", i, err)
+		}
+		want = append(want, c07Recv{v, userKey(nil), cid})
+	}
 	flush()
+	if c.HoldFirst {
+		time.Sleep(30 * time.Millisecond) // let the backlog build up behind the blocked handler
+	}
+	close(hold)
 	// count-based wait, then a grace window for duplicates / foreign deliveries
 	if !waitFor(5*time.Second, func() bool { mu.Lock(); defer mu.Unlock(); return len(got) >= len(want) }) {
 		mu.Lock()
